@@ -23,6 +23,7 @@ def c20(c):
 
 
 HTTP_MODEL = ("http", "Extract.v", ["model"], "main.ml")
+PROC_MODEL = ("httpproc", "Extract.v", ["pmodel"], "main.ml")
 
 
 def c06(c):
@@ -36,6 +37,9 @@ def c06(c):
     if c.tier == "thorough":
         args.append("-allcuts")
     c.harness("httpparse", args, overlay=True, model=HTTP_MODEL, timeout=3000)
+    # segmentation independence through the real ServerProcessor with MaxHTTPBodySize set: bodies at the limit, a pipelined
+    # successor behind them, reads that end inside the body (cmd/httpref, part bodylimit)
+    c.harness("httpref", ["-n", "0"], overlay=True, timeout=3000)
     c.finish()
 
 
@@ -67,7 +71,17 @@ def c07(c):
                   "url.ParseRequestURI and http.ParseHTTPVersion are shared stdlib calls",
                   "Go harness cmd/httpref (real ServerProcessor/ClientProcessor + handler)"]
     c.assumptions += ["theorems (c07_*_partial) cover requests and responses without a body, with Content-Length bodies, chunked bodies and declared trailers, and their pipelining; chunk extensions, trailer lines out of declaration order, HTAB and upper-case hex are decided by the differential run only"]
-    c.harness("httpref", ["-n", n(c, 3000, 100000)], overlay=True, model=HTTP_MODEL, timeout=3000)
+    # the processor behind the parser (what the handler sees): coq/httpproc, tied to nbhttp/processor.go by the same run
+    c.coq(["http", "httpproc"], "C07Proc", "HttpProcC")
+    pargs = []
+    ok, ppath, plog = vlib.build_model(*PROC_MODEL)
+    if ok:
+        pargs = ["-pmodel", ppath]
+    else:
+        vlib.log(plog)
+        c.proof_breaks.append({"component": "httpproc", "extraction": plog[-1500:]})
+    c.trusted += ["processor model (coq/httpproc/Processor.v) transcribes ServerProcessor/ClientProcessor by hand; url.ParseRequestURI is an oracle argument of the model (the harness checks per request that it yields an empty host, the only case the parser lets through); strings.ToLower is modelled on ASCII"]
+    c.harness("httpref", ["-n", n(c, 3000, 100000)] + pargs, overlay=True, model=HTTP_MODEL, timeout=3000)
     c.finish()
 
 
@@ -110,6 +124,9 @@ def c09(c):
                   "net/http's ReadResponse as the independent client decoder of the oracle",
                   "Go harness cmd/httpresp (real nbhttp.Response behind a recording net.Conn, driven through the real ServerProcessor)"]
     c.harness("httpresp", ["-n", n(c, 220, 6000)], overlay=True, model=RESP_MODEL, timeout=3000)
+    # the same clause end to end on real connections, plain and TLS (file-serving handlers: ReadFrom / Sendfile branch)
+    c.trusted += ["end-to-end tier (cmd/httpe2e -part c09): net/http over TCP and over crypto/tls as the decoder; TLS itself is exercised, not modelled"]
+    c.harness("httpe2e", ["-part", "c09"], overlay=True, timeout=3000)
     c.finish()
 
 
